@@ -69,6 +69,7 @@ impl<'d, T: Deserialize<'d>> Visitor<'d> for IgnoreUnknown<T> {
 //@   deep
 //@   key IgnoreUnknown::visit_seq
 //@   rule R17
+//@   rule R18
 }
 } // verus!
 fn main() {}
